@@ -176,7 +176,7 @@ func c18Check(s string) (string, c18Verdicts) {
 }
 
 // one representative per character class the rules distinguish
-var c18Alphabet = []string{":", "#", "@", "*", " ", "\t", "\n", "a", "7", "_", "|", ".", "+", "-", "/", "é", "\U0001F600", "\xff"}
+var c18Alphabet = []string{":", "#", "@", "*", " ", "\t", "\n", "\r", "\f", "a", "7", "_", "|", ".", "+", "-", "/", "é", "\U0001F600", "\xff"}
 
 // reduced alphabet for one extra length in the thorough tier
 var c18Reduced = []string{":", "#", "@", "*", " ", "a", "7", "|", "é", "\xff"}
@@ -205,7 +205,7 @@ func c18Enumerate(alphabet []string, minLen, maxLen int, shard, shards int, f fu
 	return n
 }
 
-const c18Rule = "exhaustive: every string over an 18-symbol character-class alphabet (one representative per class the rules " +
+const c18Rule = "exhaustive: every string over an 20-symbol character-class alphabet (one representative per class the rules " +
 	"distinguish: : # @ * space tab newline letter digit _ | . + - / é emoji invalid-byte) up to length 3 (quick) / 4 (thorough, plus " +
 	"length 5 over a 10-symbol sub-alphabet); " +
 	"boundary lengths {0,1,2,49,50,51,253,254,255,256,257} x filler classes x field positions; rapid: random unicode and " +
@@ -238,8 +238,8 @@ func TestC18(t *testing.T) {
 
 	// (2) exhaustive enumeration over the class alphabet
 	// the library compiles 1-2 regexps with {1,254}/{2,256} repetitions per call (~0.7 ms each, ~13 per
-	// string), which bounds the enumeration: quick = length <= 3 (6 175 strings), thorough = length <= 4
-	// (111 151) plus length 5 over a reduced 10-symbol alphabet (100 000).
+	// string), which bounds the enumeration: quick = length <= 3 (8 421 strings), thorough = length <= 4
+	// (168 421) plus length 5 over a reduced 10-symbol alphabet (100 000).
 	maxLen := 3
 	if ev.Thorough() {
 		maxLen = 4
